@@ -19,7 +19,7 @@ def kname(k): return ('token' if k[0] else 'session') + ',' + ('private' if k[1]
 def cell_job(job):
     from ck import CK
     ck = CK(job['hdr']); part = Part(); state = job['state']; kind = job['kind']; cls = job['cls']; on_token, private = kind
-    d = os.path.join(job['scratch'], 'm-%s-%s-%s-%s' % (state, kname(kind).replace(',', '_'), cls, job['backend'])); shutil.rmtree(d, ignore_errors=True); os.makedirs(d)
+    d = os.path.join(job['scratch'], 'm-%s-%s-%s-%s-%s' % (state, kname(kind).replace(',', '_'), cls, job['backend'], job.get('origin', 'created'))); shutil.rmtree(d, ignore_errors=True); os.makedirs(d)
     x = make_new_exec(job['paths'], ck)(job['cfg'], d, job['backend']); KT = keymat.key_templates(ck)
     def T(base, **over): a = dict(base); a.update(over); return x.T(a)
     try:
@@ -31,9 +31,13 @@ def cell_job(job):
         assert x.call('C_Login', s=rw, user=1, pin=USER.hex())['rv'] == 0
         ro = x.call('C_OpenSession', slot=slot, flags=4)['h'] if state.startswith('RO') else None
         # the object under test, created while the user is logged in through the RW session
-        tag = b'OBJ-under-test'
-        r = x.call('C_CreateObject', s=rw, tmpl=T(KT[cls], CKA_TOKEN=on_token, CKA_PRIVATE=private, CKA_LABEL=tag))
-        if r['rv'] != 0: part.inconc(f'cannot create {cls} {kname(kind)}: {r["rvname"]}'); x.close(); return part
+        tag = b'OBJ-under-test'; origin = job.get('origin', 'created')
+        if origin == 'upgrade-copy':      # a private object that came to exist as the CKA_PRIVATE=true copy of a public one (its handle is issued by C_CopyObject)
+            r0 = x.call('C_CreateObject', s=rw, tmpl=T(KT[cls], CKA_TOKEN=on_token, CKA_PRIVATE=False, CKA_LABEL=b'public-source'))
+            if r0['rv'] != 0: part.inconc(f'cannot create source {cls}: {r0["rvname"]}'); x.close(); return part
+            r = x.call('C_CopyObject', s=rw, o=r0['h'], tmpl=x.T({'CKA_PRIVATE': True, 'CKA_LABEL': tag})); x.call('C_DestroyObject', s=rw, o=r0['h'])
+        else: r = x.call('C_CreateObject', s=rw, tmpl=T(KT[cls], CKA_TOKEN=on_token, CKA_PRIVATE=private, CKA_LABEL=tag))
+        if r['rv'] != 0: part.inconc(f'cannot create {cls} {kname(kind)} ({origin}): {r["rvname"]}'); x.close(); return part
         h = r['h']
         readable = [n for n in KT[cls] if n not in ('CKA_VALUE', 'CKA_PRIVATE_EXPONENT', 'CKA_PRIME_1', 'CKA_PRIME_2', 'CKA_EXPONENT_1', 'CKA_EXPONENT_2', 'CKA_COEFFICIENT')] + ['CKA_LABEL', 'CKA_TOKEN', 'CKA_PRIVATE']
         if 'CKA_ID' not in readable and cls not in ('data', 'dsa_params', 'dh_params'): readable.append('CKA_ID')
@@ -71,7 +75,7 @@ def cell_job(job):
             """allowed False: must fail, write nothing, create nothing.  allowed True: positive control."""
             ok = r['rv'] == 0; wrote = any(o and o.get('changed', 0) for o in outs)
             results.append((role, allowed, ok))
-            key = (state, kname(kind), cls, role)
+            key = (state, kname(kind), cls, role) if job.get('origin', 'created') == 'created' else (state, kname(kind), cls, role, job['origin'])
             if not allowed:
                 if ok or wrote:
                     part.violation(f'{r.get("fn", role)}|role={role}|{kname(kind)}|{state}|{"succeeded" if ok else "wrote-output"}', f'{role} on a {kname(kind)} {cls} object in state {state} must fail and yield nothing', {'state': state, 'kind': kname(kind), 'cls': cls, 'role': role, 'rv': r['rvname'], 'backend': job['backend'], 'trace': x.trace_path})
@@ -156,6 +160,15 @@ def cell_job(job):
         if cls == 'ec_pub':
             t = newtag(); r = call('C_GenerateKeyPair', s=s, mech=x.M('CKM_EC_KEY_PAIR_GEN'), pub=x.T({'CKA_EC_PARAMS': keymat.OID['p256'], 'CKA_LABEL': t, 'CKA_TOKEN': on_token, 'CKA_PRIVATE': private}), priv=x.T({'CKA_LABEL': t + b'-priv', 'CKA_TOKEN': False, 'CKA_PRIVATE': False}))
             judge('generate-pair(public half)', can_write(on_token, private), r, new_tag=t, new_kind=kind)
+        # ---- creation with non-canonical CK_BBOOL bytes: whatever the call answers, no PRIVATE object may exist afterwards unless the user is logged in,
+        #      and no TOKEN object unless the session is read-write (judged below, with the user's eyes)
+        odd_tags = {}
+        if cls in ('data', 'aes', 'rsa_pub'):
+            for bv in (0x02, 0x80, 0xFF):
+                for attr_name in ('CKA_PRIVATE', 'CKA_TOKEN'):
+                    tg = newtag(); a = dict(KT[cls], CKA_LABEL=tg, CKA_TOKEN=False, CKA_PRIVATE=False); a[attr_name] = {'bool': bv}
+                    r = call('C_CreateObject', s=s, tmpl=x.T(a)); odd_tags[tg] = (attr_name, bv, r['rv'] == 0)
+                    part.case((state, cls, 'create-noncanonical-bool', attr_name, bv))
         # ---- destroy, last
         r = call('C_DestroyObject', s=s, o=h); destroy_allowed = can_write(on_token, private) and obj_exists; judge('destroy', destroy_allowed, r); destroyed = r['rv'] == 0
         # ---- effects, seen by the logged-in user again
@@ -169,6 +182,12 @@ def cell_job(job):
             present = t in labels
             if present and (not allowed or not ok):
                 part.violation(f'effect|role={role}|{kname(kind)}|{state}|object-exists-after-{"refusal" if not allowed else "error"}', 'an object exists although the creating call was refused', {'state': state, 'cls': cls, 'role': role, 'backend': job['backend']})
+        for tg, (attr_name, bv, okc) in odd_tags.items():
+            if tg not in labels: continue
+            vals = x.getattrs(rw, labels[tg][0], ['CKA_PRIVATE', 'CKA_TOKEN'])[1]
+            is_priv = vals.get('CKA_PRIVATE') not in (b'\x00', None); is_tok = vals.get('CKA_TOKEN') not in (b'\x00', None)
+            if is_priv and not user_in: part.violation(f'C_CreateObject|role=create,{attr_name}=noncanonical-bool|{state}|private-object-created', 'a template with a non-canonical CK_BBOOL created an object that IS private in a session without user login', {'state': state, 'cls': cls, 'byte': bv, 'backend': job['backend']})
+            if is_tok and not is_rw: part.violation(f'C_CreateObject|role=create,{attr_name}=noncanonical-bool|{state}|token-object-created', 'a template with a non-canonical CK_BBOOL created a token object through a read-only session', {'state': state, 'cls': cls, 'byte': bv, 'backend': job['backend']})
         if obj_exists and not destroyed:
             if tag not in labels: part.violation(f'effect|{kname(kind)}|{state}|object-gone', 'the object disappeared although every forbidden call was refused', {'state': state, 'cls': cls, 'backend': job['backend']})
             elif not can_write(on_token, private):
@@ -188,6 +207,7 @@ W = {'open': 5, 'close': 2, 'closeall': 1, 'login': 5, 'logout': 4, 'create': 7,
 def run(ctx):
     ctx.need('asan'); classes = ctx.q(CLASSES_Q, CLASSES_T); backends = ('file', 'db')
     jobs = [dict(paths=ctx.paths, hdr=ctx.paths['asan']['hdr'], cfg='asan', scratch=ctx.scratch, state=st, kind=k, cls=c, backend=b) for b in backends for st in STATES for k in KINDS for c in classes]
+    jobs += [dict(paths=ctx.paths, hdr=ctx.paths['asan']['hdr'], cfg='asan', scratch=ctx.scratch, state=st, kind=k, cls=c, backend='file', origin='upgrade-copy') for st in STATES for k in KINDS if k[1] for c in classes if c in ('data', 'aes', 'generic', 'rsa_priv', 'ec_priv')]
     for part in pmap(cell_job, jobs, ctx.nproc): ctx.merge(part)
     ctx.extra['matrix'] = {'states': len(STATES), 'object_kinds': len(KINDS), 'classes': len(classes), 'backends': list(backends), 'exhaustive_over_listed_dimensions': not ctx.inconclusive}
     # positive-control rule: a refused cell is only as good as the same (kind, class, role) succeeding somewhere
